@@ -359,6 +359,9 @@ def _case(root: Path, case: dict) -> dict:
             from concurrent.futures import ThreadPoolExecutor
             with ThreadPoolExecutor(2) as pool:
                 srcs = [out / "cpp", out / "jni"] if case.get("judge_sources", True) else []
+                if (out / "cpp").exists():
+                    (out / "cpp" / "gsl").mkdir(exist_ok=True)
+                    (out / "cpp" / "gsl" / "pointers").write_text(GSL_STUB)
                 hdrs = [out / "cpp", out / "jni"]
                 if "cpp" not in case["targets"]:
                     hdrs, srcs = [], []        # the JNI glue is written against the C++ headers: nothing to compile without them
@@ -555,6 +558,7 @@ service = main interface +cpp {
     old_one();
 }
 both = interface { async ping(a: i32) -> i32; poke(v: i32?) -> i32?; }
+node = interface +cpp { next() -> node; static make() -> node; weight() -> i32; }
 callback = function (a: list<prims>) -> opts;
 thrower = function (a: i32) throws -> i32;
 """
@@ -597,6 +601,26 @@ service = main interface +cpp {
     async later(a: i32) -> deep.er.inner;
 }
 callback = function (a: deep.er.inner) -> bool;
+node = interface +cpp { next() -> node; static make() -> node; }
+"""
+
+# stand-in for the user's not-null wrapper (configuration switch cpp.not-null), put on the include path like a user would
+GSL_STUB = """#pragma once
+#include <memory>
+#include <utility>
+namespace gsl {
+template <class T> class not_null {
+public:
+    not_null(T t) : p_(std::move(t)) {}
+    template <class U> not_null(const not_null<U>& o) : p_(o.get()) {}
+    operator T() const { return p_; }
+    T get() const { return p_; }
+    decltype(auto) operator->() const { return p_.operator->(); }
+    decltype(auto) operator*() const { return *p_; }
+private:
+    T p_;
+};
+}
 """
 
 ANN_SOURCES = {
@@ -637,6 +661,7 @@ FEATURES = {
     "objc.no-prefix": {"objc": {"type_prefix": ""}},
     # optional settings left at their defaults (the harness's base configuration sets them)
     "cpp.no-namespace": {"cpp": {"namespace": "__unset__"}},
+    "cpp.not-null": {"cpp": {"not_null": {"type": "::gsl::not_null", "header": "<gsl/pointers>"}}},
     "jni.no-namespace": {"jni": {"namespace": "__unset__"}},
     "cppcli.no-namespace": {"cppcli": {"namespace": "__unset__"}},
     "objcpp.no-namespace": {"objcpp": {"namespace": "__unset__"}},
